@@ -116,7 +116,7 @@ func (c *ExchangeContent) inheritPropertiesFromUserType(
 			return errors.New(jerr.RuntimeFailure)
 		}
 
-		p := c.ObjectProperty(*(cc.Key))
+		p := c.sameProperty(cc)
 		if p != nil && p.InheritedFrom == "" {
 			// Don't allow to override original properties.
 			return fmt.Errorf(jerr.NotAllowedToOverrideTheProperty,
@@ -161,6 +161,19 @@ func (c *ExchangeContent) IsObjectHaveProperty(k string) bool {
 func (c *ExchangeContent) ObjectProperty(k string) *ExchangeContent {
 	for _, v := range c.Children {
 		if *(v.Key) == k {
+			return v
+		}
+	}
+	return nil
+}
+
+// sameProperty returns the property of c which is the same property as p: the
+// same key of the same kind. A key which refers to a user type (@k: ...) and the
+// literal key "@k" are two different properties, the schema library accepts
+// both in one object.
+func (c *ExchangeContent) sameProperty(p *ExchangeContent) *ExchangeContent {
+	for _, v := range c.Children {
+		if *(v.Key) == *(p.Key) && v.IsKeyUserTypeRef == p.IsKeyUserTypeRef {
 			return v
 		}
 	}
